@@ -18,16 +18,21 @@ static char **corpus; static size_t ncorpus;
 static uint64_t mtd(int ev) { return lzma_verif_visit_counts[VERIF_D_MT_DEC][ev]; }
 static uint64_t mte(int ev) { return lzma_verif_visit_counts[VERIF_D_MT_ENC][ev]; }
 
+static bool sched_run_active;   // between sched_case_begin() and sched_case_end(): only then the step limit means anything
+
 static void sched_case_begin(uint64_t seed)
 {
 	int pol = (int)(seed % 3);
 	sched_configure(SMODE, seed, pol);
 	if (SMODE == SCHED_SERIAL) sched_set_step_limit(A.thorough ? 4000000 : 1500000);
+	sched_run_active = true;
 }
+
+static void sched_case_end(void) { sched_configure(SCHED_OFF, 0, 0); sched_run_active = false; }
 
 static bool sched_aborted(void)
 {
-	if (SMODE != SCHED_SERIAL) return false;
+	if (SMODE != SCHED_SERIAL || !sched_run_active) return false;
 	sched_stats st; sched_get_stats(&st);
 	return st.step_limit;
 }
@@ -38,12 +43,15 @@ static bool sched_aborted(void)
 
 typedef struct {
 	lzma_ret ret; vbuf out; uint64_t total_in; bool protocol_violation; char why[200];
-	unsigned memlimit_errors; bool aborted; uint64_t calls; unsigned informational;
+	unsigned memlimit_errors; bool aborted; uint64_t calls; unsigned informational; bool reinitialised;
 } mres;
 
 // Decode with optional memlimit raising, early end, re-init. `spec` tells the decoder.
-static void run_dec(dec_spec *spec, const uint8_t *in, size_t n, const slice_plan *plan, vrng *r,
-		int64_t end_after_call, mres *R)
+// out_budget >= 0: the caller's output space is that many bytes in total and is never enlarged (calls go on with
+// avail_out == 0 once it is used up). reinit != NULL: when end_after_call is reached the handle is not ended but
+// initialised again with *reinit (no lzma_end) and the whole input is decoded from the start.
+static void run_dec2(dec_spec *spec, const uint8_t *in, size_t n, const slice_plan *plan, vrng *r,
+		int64_t end_after_call, int64_t out_budget, dec_spec *reinit, mres *R)
 {
 	memset(R, 0, sizeof(*R));
 	lzma_stream s = LZMA_STREAM_INIT;
@@ -63,9 +71,15 @@ static void run_dec(dec_spec *spec, const uint8_t *in, size_t n, const slice_pla
 		case SL_ONEBYTE: ai = 1; ao = 1; break;
 		default: ai = vrng_chance(&pr, 1, 8) ? 0 : 1 + vrng_logsize(&pr, plan->max_in ? plan->max_in - 1 : 4095); ao = vrng_chance(&pr, 1, 8) ? 0 : 1 + vrng_logsize(&pr, plan->max_out ? plan->max_out - 1 : 4095); break;
 		}
+		// once the output space is used up only the final status is of interest: no more input slicing (every
+		// call may cost a full time-out of the decoder)
+		if (out_budget >= 0 && R->out.n >= (uint64_t)out_budget) ai = left;
 		if (ai > left) ai = left;
 		if (finishing) ai = left;
 		if (ai > vh_window_max()) ai = vh_window_max();
+		const uint64_t room = out_budget < 0 ? UINT64_MAX : (R->out.n >= (uint64_t)out_budget ? 0 : (uint64_t)out_budget - R->out.n);
+		const bool budget_used_up = room == 0;
+		if (ao > room) ao = (size_t)room;
 		lzma_action act = (pos + ai == n && plan->final_action == LZMA_FINISH) ? LZMA_FINISH : LZMA_RUN;
 		if (act == LZMA_FINISH) finishing = true;
 		uint8_t *ip = vh_in_window(in + pos, ai); uint8_t *op = vh_out_window(ao);
@@ -77,13 +91,22 @@ static void run_dec(dec_spec *spec, const uint8_t *in, size_t n, const slice_pla
 		if ((unsigned)ret > LZMA_SEEK_NEEDED) { R->protocol_violation = true; snprintf(R->why, sizeof(R->why), "undocumented return value %d", (int)ret); break; }
 		vbuf_append(&R->out, op, dout); pos += din;
 		if (sched_aborted()) { R->aborted = true; break; }
-		if (end_after_call >= 0 && (int64_t)R->calls >= end_after_call) { R->aborted = true; break; }
+		if (end_after_call >= 0 && (int64_t)R->calls >= end_after_call) {
+			if (reinit == NULL) { R->aborted = true; break; }
+			// second life of the same handle
+			ret = dec_init(&s, reinit, NULL, in, n);
+			if (ret != LZMA_OK) { R->protocol_violation = true; snprintf(R->why, sizeof(R->why), "re-initialising the handle after %" PRIu64 " calls returned %s", R->calls, lzma_ret_name(ret)); break; }
+			spec = reinit; reinit = NULL; end_after_call = -1;
+			pos = 0; finishing = false; prev_noprog = false; vbuf_clear(&R->out); R->calls = 0; R->memlimit_errors = 0; R->informational = 0;
+			R->reinitialised = true;
+			continue;
+		}
 		bool noprog = din == 0 && dout == 0;
 		if (ret == LZMA_OK) {
 			if (noprog && prev_noprog && spec->timeout == 0) { R->protocol_violation = true; snprintf(R->why, sizeof(R->why), "LZMA_OK twice without progress"); break; }
 			prev_noprog = noprog;
 		} else if (ret == LZMA_BUF_ERROR) {
-			bool withheld = (ai < left && !finishing) || ao == 0;
+			bool withheld = (ai < left && !finishing) || (ao == 0 && !budget_used_up);
 			if (!withheld || R->calls > max_calls) break;
 			prev_noprog = true;
 		} else if (ret == LZMA_MEMLIMIT_ERROR) {
@@ -98,6 +121,11 @@ static void run_dec(dec_spec *spec, const uint8_t *in, size_t n, const slice_pla
 	}
 	R->ret = ret; R->total_in = s.total_in;
 	lzma_end(&s);
+}
+
+static void run_dec(dec_spec *spec, const uint8_t *in, size_t n, const slice_plan *plan, vrng *r, int64_t end_after_call, mres *R)
+{
+	run_dec2(spec, in, n, plan, r, end_after_call, -1, NULL, R);
 }
 
 static uint64_t simple_visits(void) { uint64_t t = 0; for (int v = 0; v < VERIF_VALUES; ++v) t += lzma_verif_visit_counts[VERIF_D_SIMPLE][v]; return t; }
@@ -160,21 +188,52 @@ static void c07_case(uint64_t idx)
 	if (plan.mode == SL_RANDOM && (plain_n > 40000) && plan.max_out < 64) plan.max_out = 1000;
 	if (plan.mode == SL_RANDOM && (data.n > 40000) && plan.max_in < 64) plan.max_in = 1000;
 	plan.final_action = vrng_chance(&r, 4, 5) ? LZMA_FINISH : LZMA_RUN;
-	int64_t early_end = vrng_chance(&r, 1, 8) ? (int64_t)(1 + vrng_below(&r, 40)) : -1;
-	hx_sample("c07 %s %s threads=%u timeout=%u mlt=%" PRIu64 " mls=%" PRIu64 " flags=0x%x slicing=%s/%zu/%zu fin=%d early_end=%" PRId64 " (%zu bytes)",
-			desc, md, mt.threads, mt.timeout, mt.memlimit_threading, mt.memlimit, mt.flags, slice_mode_name(plan.mode), plan.max_in, plan.max_out, (int)plan.final_action, early_end, data.n);
+	int64_t early_end = vrng_chance(&r, 1, 5) ? (int64_t)(1 + vrng_below(&r, 40)) : -1;
+	// half of the early ends are followed by a second life of the handle (threaded decoder initialised again without
+	// lzma_end, other thread count and threading limit) that decodes the whole file
+	dec_spec mt2; bool reinit = early_end >= 0 && vrng_chance(&r, 1, 2);
+	if (reinit) {
+		mt2 = mt; mt2.threads = 1 + vrng_below(&r, 8);
+		unsigned k2 = vrng_below(&r, 4);
+		mt2.memlimit_threading = k2 == 0 ? mt.memlimit_threading : (k2 == 1 ? 70000 + vrng_below(&r, 600000) : (k2 == 2 ? (1u << 20) + vrng_below(&r, 4u << 20) : UINT64_MAX));
+		if (vrng_chance(&r, 1, 2)) { plan.mode = SL_RANDOM; if (plan.max_in < 512) plan.max_in = 4096; if (plan.max_out < 512) plan.max_out = 4096; }
+	}
+	// exact-fit output: a sixth of the complete runs get exactly as much output space as the data needs (sometimes
+	// one byte more or less), never enlarged
+	int budget_kind = (early_end < 0 && vrng_chance(&r, 1, 5)) ? 1 + (int)vrng_below(&r, 4) : 0;   // 1,2 exact; 3 +1; 4 -1
+	hx_sample("c07 %s %s threads=%u timeout=%u mlt=%" PRIu64 " mls=%" PRIu64 " flags=0x%x slicing=%s/%zu/%zu fin=%d early_end=%" PRId64 "%s budget=%d (%zu bytes)",
+			desc, md, mt.threads, mt.timeout, mt.memlimit_threading, mt.memlimit, mt.flags, slice_mode_name(plan.mode), plan.max_in, plan.max_out, (int)plan.final_action, early_end, reinit ? "+reinit" : "", budget_kind, data.n);
 	// ---- single-threaded reference (no scheduling involved) ----
 	uint64_t sv0 = simple_visits();
 	slice_plan whole = { .mode = SL_WHOLE, .final_action = plan.final_action };
 	mres S; run_dec(&st, data.p, data.n, &whole, &r, -1, &S);
 	bool via_bcj = simple_visits() > sv0;
+	const lzma_ret S0ret = S.ret;   // status with unlimited output space
+	int64_t budget = -1;
+	// (for rejected input behind a BCJ filter the number of bytes delivered before the error is the subject of a
+	// known finding; a space limit there would only turn that length difference into a status difference)
+	if (budget_kind && via_bcj && S.ret != LZMA_STREAM_END && S.ret != LZMA_OK && S.ret != LZMA_BUF_ERROR) budget_kind = 0;
+	if (budget_kind) {
+		budget = (int64_t)S.out.n + (budget_kind == 3 ? 1 : (budget_kind == 4 && S.out.n > 0 ? -1 : 0));
+		if (budget != (int64_t)S.out.n) {   // the reference for a different amount of space is the single-threaded decoder with that space
+			vbuf_free(&S.out);
+			run_dec2(&st, data.p, data.n, &whole, &r, -1, budget, NULL, &S);
+		} else {
+			// exact fit must not change what the single-threaded decoder reports
+			mres S2; run_dec2(&st, data.p, data.n, &whole, &r, -1, budget, NULL, &S2);
+			if (S2.ret != S.ret || S2.out.n != S.out.n) hx_count("single_threaded_exact_fit_differs", 1);
+			vbuf_free(&S.out); S = S2;
+		}
+		hx_count(budget_kind <= 2 ? "exact_fit_output_cases" : "near_fit_output_cases", 1);
+	}
 	// ---- threaded run under the shim ----
 	uint64_t ev0[16]; for (int e = 0; e < 15; ++e) ev0[e] = mtd(e);
 	sched_case_begin(A.seed * 1000003u + idx);
-	mres M; run_dec(&mt, data.p, data.n, &plan, &r, early_end, &M);
+	mres M; run_dec2(&mt, data.p, data.n, &plan, &r, early_end, budget, reinit ? &mt2 : NULL, &M);
 	hx_eval();
+	if (M.reinitialised) hx_count("reinitialised_handle_cases", 1);
 	sched_stats ss; sched_get_stats(&ss);
-	sched_configure(SCHED_OFF, 0, 0);
+	sched_case_end();
 	char key[200];
 	bool is_err = S.ret != LZMA_STREAM_END && S.ret != LZMA_OK && S.ret != LZMA_BUF_ERROR;
 	if (M.protocol_violation) { hx_violation("C07", "protocol|stream_mt", idx, "%s; %s %s", M.why, desc, md); }
@@ -188,6 +247,10 @@ static void c07_case(uint64_t idx)
 	} else if (S.protocol_violation) { hx_violation("C07", "protocol|stream", idx, "%s; %s %s", S.why, desc, md); }
 	else if (!fail_fast) {
 		bool same_status = M.ret == S.ret;
+		// Out of output space the single-threaded decoder can only say "no progress" (LZMA_BUF_ERROR); the threaded
+		// one has read ahead and may already know how the file ends. The converse - the threaded decoder stuck
+		// where the single-threaded one finishes - is a violation.
+		if (budget >= 0 && S.ret == LZMA_BUF_ERROR && M.ret == S0ret) { same_status = true; hx_count("budget_mt_knows_more", M.ret != S.ret); }
 		bool same_out = M.out.n == S.out.n && (S.out.n == 0 || memcmp(M.out.p, S.out.p, S.out.n) == 0);
 		bool bcj_len_only = via_bcj && is_err;
 		if (bcj_len_only) same_out = true;
@@ -374,7 +437,7 @@ static void c08_case(uint64_t idx)
 	bool complete = !failed && !e.ended_early;
 	lzma_end(&e.s);
 	sched_stats ss; sched_get_stats(&ss);
-	sched_configure(SCHED_OFF, 0, 0);
+	sched_case_end();
 	if (complete) {
 		// single valid Stream decoding to exactly the input
 		lzma_stream d = LZMA_STREAM_INIT; vbuf_clear(&dec);
